@@ -108,17 +108,30 @@ def phase_mc(prop, tier, specdir, scratch):
 
 def phase_gen(prop, tier, specdir, scratch):
     """TLC exports behaviours / scripts of the specification for replay (TG)."""
-    g = prop.get("gen")
-    if not g:
+    gens = prop.get("gen")
+    if not gens:
         return None
+    if isinstance(gens, dict):
+        gens = [gens]
     out = os.path.join(scratch, "scripts.ndjson")
-    cfg = g["cfg"][tier] if isinstance(g["cfg"], dict) else g["cfg"]
-    r = run_tlc(specdir, g["module"], cfg, g.get("workers", 1), scratch, "gen", g.get("timeout", 900),
-                env={"OUT_FILE": out}, extra=g.get("extra", ()))
-    if not r["ok"] or not os.path.exists(out) or os.path.getsize(out) == 0:
-        raise Infra(f"script export {g['module']}/{cfg} failed (see {r['log']})")
-    n = sum(1 for _ in open(out))
-    log(f"TG {g['module']}/{cfg}: {n} scripts exported in {r['wall_s']}s")
+    total = 0
+    with open(out, "w") as allf:
+        for i, g in enumerate(gens):
+            part = os.path.join(scratch, f"scripts{i}.ndjson")
+            cfg = g["cfg"][tier] if isinstance(g["cfg"], dict) else g["cfg"]
+            r = run_tlc(specdir, g["module"], cfg, g.get("workers", 1), scratch, f"gen{i}", g.get("timeout", 900),
+                        env={"OUT_FILE": part}, xmx=g.get("xmx", "6g"), extra=g.get("extra", ()))
+            if not r["ok"] or not os.path.exists(part) or os.path.getsize(part) == 0:
+                raise Infra(f"script export {g['module']}/{cfg} failed (see {r['log']})")
+            n = 0
+            for line in open(part):
+                if line.strip():
+                    allf.write(line if line.endswith("\n") else line + "\n")
+                    n += 1
+            total += n
+            log(f"TG {g['module']}/{cfg}: {n} scripts exported in {r['wall_s']}s")
+    if total == 0:
+        raise Infra("script export is empty")
     return out
 
 
@@ -353,7 +366,7 @@ def run(pid, tier, seed, replay=None, keep=False, skip_mc=False):
             print(f"VIOLATION property={pid} replay={os.path.relpath(p, VERIF)}")
         if violations and not paths:
             print(f"VIOLATION property={pid} replay=")
-        if not replay and REPO == "/repo":
+        if not replay and not skip_mc and REPO == "/repo":
             samples = st.get("samples") or []
             # keep evidence small
             samples = [json.loads(json.dumps(s)[:4000]) if len(json.dumps(s)) <= 4000 else {"truncated": json.dumps(s)[:1500]} for s in samples[:4]]
